@@ -2,10 +2,10 @@
 C17 — the carriage-return mark of `serialize_to_xml` on the WHOLE serialized element (`Model/XmlCrMark.lean`).
 
 `Piece`: the strings an element is serialized from (markup, namespace URIs, text/tails, attribute values, comment/PI data);
-`chooseMark`: the first private-use code point U+E000…U+F8FE outside the scanned strings; `serializeMarked attrs`: CR of
+`chooseMark`: the first private-use code point U+E000…U+F8FE outside the scanned strings; `serializeMarked sc`: CR of
 text/tails ↦ mark, ElementTree's escaping of every piece, `.replace(mark, '&#13;')` on the whole output.
-`attrs = true` is the repository's scan (text, tails, attribute values, comment/PI data); `attrs = false` the scan
-restricted to text and tails.
+`Scan.all` is the repository's scan (fixed tree: every string of the subtree), `Scan.values` the tree before the F17x fix
+(tags / attribute names not read), `Scan.textTail` the scan restricted to text and tails (seeded regression).
 -/
 import EPV.Lemmas.XmlCrMark
 namespace EPV.C17
@@ -14,33 +14,31 @@ open EPV.Json
 /-- FRESHNESS ⇒ the replace is exact, whatever was scanned: if the chosen mark occurs in NONE of the source strings the
 serializer emits (markup, namespace URIs, text, tails, attribute values, comment and PI data), then replacing it in the
 whole output gives exactly the wanted output (every piece as ElementTree escapes it, U+000D of text/tails as `&#13;`). -/
-theorem serialize_cr_mark_exact (attrs : Bool) (ps : List Piece) (k : Nat) (hk : chooseMark (usedChars attrs ps) = some k)
-    (hfresh : ∀ p ∈ ps, ∀ x ∈ p.src, x ≠ k) : serializeMarked attrs ps = some (wantedOutput ps) := by
+theorem serialize_cr_mark_exact (sc : Scan) (ps : List Piece) (k : Nat) (hk : chooseMark (usedChars sc ps) = some k)
+    (hfresh : ∀ p ∈ ps, ∀ x ∈ p.src, x ≠ k) : serializeMarked sc ps = some (wantedOutput ps) := by
   obtain ⟨hlo, _, _⟩ := chooseMark_spec _ k hk
-  have e : serializeMarked attrs ps = some (replaceAll [k] [38, 35, 49, 51, 59] (ps.flatMap (Piece.emitMarked k))) := by
+  have e : serializeMarked sc ps = some (replaceAll [k] [38, 35, 49, 51, 59] (ps.flatMap (Piece.emitMarked k))) := by
     unfold serializeMarked; rw [hk]
   rw [e, replaceAll_flatMap_pieces, wantedOutput,
     flatMap_congr_pieces ps (fun p hp => piece_exact k hlo p (hfresh p hp))]
 
-/-- FULL STRENGTH for the repository's scan: the mark is chosen outside text, tails, ATTRIBUTE VALUES and comment/PI data;
-the only assumption left is on the strings the scan does not read — markup (XML names cannot contain U+E000…U+F8FF) and
-namespace URIs — which must not contain a code point of the mark range (`F17x` is the finding when a URI does); and that a
-mark exists (`chooseMark … = some k`: fewer than 6399 distinct private-use characters in the subtree). -/
-theorem serialize_cr_mark_roundtrip (ps : List Piece) (k : Nat) (hk : chooseMark (usedChars true ps) = some k)
-    (hun : ∀ p ∈ ps, p.scanned true = false → ∀ x ∈ p.src, ¬ (0xE000 ≤ x ∧ x < 0xF8FF)) :
-    serializeMarked true ps = some (wantedOutput ps) := by
-  obtain ⟨hlo, hhi, hused⟩ := chooseMark_spec _ k hk
-  refine serialize_cr_mark_exact true ps k hk (fun p hp x hx hxk => ?_)
-  by_cases hs : p.scanned true = true
-  · exact hused x (List.mem_flatMap.mpr ⟨p, List.mem_filter.mpr ⟨hp, hs⟩, hx⟩) hxk
-  · exact hun p hp (by simpa using hs) x hx (by omega)
+/-- FULL STRENGTH for the repository's scan (fixed tree: every string of the serialized subtree is read — text, tails,
+attribute values and names, tags / namespace URIs, comment and PI data): whenever a mark exists (`chooseMark … = some k`:
+fewer than 6399 distinct private-use characters in the subtree), the output is exactly the wanted one.  No assumption on
+namespace URIs or any other string is left. -/
+theorem serialize_cr_mark_roundtrip (ps : List Piece) (k : Nat) (hk : chooseMark (usedChars .all ps) = some k) :
+    serializeMarked .all ps = some (wantedOutput ps) := by
+  obtain ⟨_, _, hused⟩ := chooseMark_spec _ k hk
+  refine serialize_cr_mark_exact .all ps k hk (fun p hp x hx hxk => ?_)
+  have hs : p.scanned .all = true := by cases p <;> rfl
+  exact hused x (List.mem_flatMap.mpr ⟨p, List.mem_filter.mpr ⟨hp, hs⟩, hx⟩) hxk
 
 /-- the hypotheses hold on a non-trivial element (test on literals): attribute value U+E000, text `U+E001 CR`, comment
 U+E002 — the mark is U+E003 and the output is the wanted one -/
 example :
     let ps : List Piece := [.markup [60, 97, 32, 107, 61, 34], .attr [0xE000], .markup [34, 62], .chars [0xE001, 13],
       .markup [60, 33, 45, 45], .raw [0xE002], .markup [45, 45, 62, 60, 47, 97, 62]]
-    chooseMark (usedChars true ps) = some 0xE003 ∧ serializeMarked true ps = some (wantedOutput ps) := by
+    chooseMark (usedChars .all ps) = some 0xE003 ∧ serializeMarked .all ps = some (wantedOutput ps) := by
   decide +kernel
 
 /-- the scan restricted to text and tails (seeded regression) fails exactly when the mark collides (test on literals):
@@ -48,16 +46,19 @@ example :
 theorem cr_mark_text_tail_scan_fails :
     let ps : List Piece := [.markup [60, 97, 32, 107, 61, 34], .attr [0xE000], .markup [34, 62], .chars [120, 13],
       .markup [60, 47, 97, 62]]
-    markCollides false ps = true ∧ serializeMarked false ps ≠ some (wantedOutput ps) ∧
-    markCollides true ps = false ∧ serializeMarked true ps = some (wantedOutput ps) := by
+    markCollides .textTail ps = true ∧ serializeMarked .textTail ps ≠ some (wantedOutput ps) ∧
+    markCollides .all ps = false ∧ serializeMarked .all ps = some (wantedOutput ps) := by
   decide +kernel
 
-/-- FINDING F17x (witness): the repository's scan does not read namespace URIs; `<ns0:a xmlns:ns0="uU+E000">CR</ns0:a>`:
-the URI comes out as `u&#13;` -/
+/-- F17x (tree before `fix: fn:serialize chooses the U+000D placeholder outside every string …`; `Scan.values`): the scan did
+not read namespace URIs; `<ns0:a xmlns:ns0="uU+E000">CR</ns0:a>`: the URI came out as `u&#13;`.  The repaired scan (`Scan.all`)
+is exact on the same element (regression test on the literal). -/
 theorem cr_mark_nsuri_fails :
     let ps : List Piece := [.markup [60, 110, 115, 48, 58, 97, 32, 120, 109, 108, 110, 115, 58, 110, 115, 48, 61, 34],
       .nsuri [117, 0xE000], .markup [34, 62], .chars [13], .markup [60, 47, 110, 115, 48, 58, 97, 62]]
-    markCollides true ps = true ∧ serializeMarked true ps ≠ some (wantedOutput ps) := by
+    markCollides .values ps = true ∧ serializeMarked .values ps ≠ some (wantedOutput ps) ∧
+    markCollides .all ps = false ∧ chooseMark (usedChars .all ps) = some 0xE001 ∧
+    serializeMarked .all ps = some (wantedOutput ps) := by
   decide +kernel
 
 end EPV.C17
